@@ -42,6 +42,7 @@ structure ReservePost (cfg : Cfg) (s s' : State) : Prop where
   inv : GeomInv cfg s'
   resps : RespsOK cfg s'
   minAlign : s'.minAlign = s.minAlign
+  trace : Trace s s'
 
 theorem reserve_ok (hc : CfgOK cfg) {s : State} (h : GeomInv cfg s) (hr : RespsOK cfg s) (additional : Nat) :
     (∀ s' r, reserve cfg s additional = .ok (s', r) → ReservePost cfg s s') ∧
@@ -52,13 +53,13 @@ theorem reserve_ok (hc : CfgOK cfg) {s : State} (h : GeomInv cfg s) (hr : RespsO
   | claimed =>
     refine ⟨?_, fun _ => ⟨_, _, rfl⟩⟩
     intro s' r he; cases he
-    exact ⟨h, hr, rfl⟩
+    exact ⟨h, hr, rfl, Trace.refl _⟩
   | unallocated =>
     simp only
     cases hlo : layoutOk additional 1
     · refine ⟨?_, fun _ => ⟨_, _, rfl⟩⟩
       intro s' r he; cases he
-      exact ⟨h, hr, rfl⟩
+      exact ⟨h, hr, rfl, Trace.refl _⟩
     · have hL := bytes_layout_valid hlo
       obtain ⟨n1, n2⟩ := newChunkForCapacity_post hc h hr hL
       simp only [Bool.not_true, Bool.false_eq_true, ↓reduceIte]
@@ -71,10 +72,10 @@ theorem reserve_ok (hc : CfgOK cfg) {s : State} (h : GeomInv cfg s) (hr : RespsO
           have np := n1 s1 r1 hn
           rw [hn] at he
           cases r1 with
-          | error e => cases he; exact ⟨np.inv, np.resps, np.minAlign⟩
+          | error e => cases he; exact ⟨np.inv, np.resps, np.minAlign, np.trace⟩
           | ok i =>
             cases he
-            exact ⟨np.withCur, np.resps, np.minAlign⟩
+            exact ⟨np.withCur, np.resps, np.minAlign, np.trace⟩
       · intro hb
         have : ∃ s1 r1, newChunkForCapacity cfg s { size := additional, align := 1 } = .ok (s1, r1) := by
           apply n2
@@ -91,7 +92,7 @@ theorem reserve_ok (hc : CfgOK cfg) {s : State} (h : GeomInv cfg s) (hr : RespsO
     | none =>
       refine ⟨?_, fun _ => ⟨_, _, rfl⟩⟩
       intro s' r he; cases he
-      exact ⟨h, hr, rfl⟩
+      exact ⟨h, hr, rfl, Trace.refl _⟩
     | some rest =>
       simp only
       have hrest : rest ≤ additional := by
@@ -103,7 +104,7 @@ theorem reserve_ok (hc : CfgOK cfg) {s : State} (h : GeomInv cfg s) (hr : RespsO
       | none =>
         refine ⟨?_, fun _ => ⟨_, _, rfl⟩⟩
         intro s' r he; cases he
-        exact ⟨h, hr, rfl⟩
+        exact ⟨h, hr, rfl, Trace.refl _⟩
       | some rest2 =>
         simp only
         have hrest2 := walkReserve_le cfg _ _ _ _ _ hwr
@@ -111,12 +112,12 @@ theorem reserve_ok (hc : CfgOK cfg) {s : State} (h : GeomInv cfg s) (hr : RespsO
         · simp only [h0, ↓reduceIte]
           refine ⟨?_, fun _ => ⟨_, _, rfl⟩⟩
           intro s' r he; cases he
-          exact ⟨h, hr, rfl⟩
+          exact ⟨h, hr, rfl, Trace.refl _⟩
         · simp only [h0, ↓reduceIte]
           cases hlo : layoutOk rest2 1
           · refine ⟨?_, fun _ => ⟨_, _, rfl⟩⟩
             intro s' r he; cases he
-            exact ⟨h, hr, rfl⟩
+            exact ⟨h, hr, rfl, Trace.refl _⟩
           · have hL := bytes_layout_valid hlo
             obtain ⟨last, hlast⟩ := getLast?_isSome_of_getElem? hi
             obtain ⟨n1, n2⟩ := appendFor_post hc h hr hL hlast
@@ -130,8 +131,8 @@ theorem reserve_ok (hc : CfgOK cfg) {s : State} (h : GeomInv cfg s) (hr : RespsO
                 have np := n1 s1 r1 hn
                 rw [hn] at he
                 cases r1 with
-                | error e => cases he; exact ⟨np.inv, np.resps, np.minAlign⟩
-                | ok i => cases he; exact ⟨np.inv, np.resps, np.minAlign⟩
+                | error e => cases he; exact ⟨np.inv, np.resps, np.minAlign, np.trace⟩
+                | ok i => cases he; exact ⟨np.inv, np.resps, np.minAlign, np.trace⟩
             · intro hb
               have : ∃ s1 r1, appendFor cfg s { size := rest2, align := 1 } = .ok (s1, r1) := by
                 apply n2
@@ -149,7 +150,7 @@ theorem reserveDyn_ok (hc : CfgOK cfg) {s : State} (h : GeomInv cfg s) (hr : Res
   cases hlo : layoutOk additional 1
   · refine ⟨?_, fun _ => ⟨_, _, rfl⟩⟩
     intro s' r he; cases he
-    exact ⟨h, hr, rfl⟩
+    exact ⟨h, hr, rfl, Trace.refl _⟩
   · have hL := bytes_layout_valid hlo
     have hcu : Hints.custom.sma = true → ({ size := additional, align := 1 } : Layout).align ∣
         ({ size := additional, align := 1 } : Layout).size := fun hx => by cases hx
@@ -165,11 +166,68 @@ theorem reserveDyn_ok (hc : CfgOK cfg) {s : State} (h : GeomInv cfg s) (hr : Res
         rw [hg] at he
         cases he
         have sp := a1 _ _ hg
-        exact ⟨sp.inv, sp.resps, sp.minAlign⟩
+        exact ⟨sp.inv, sp.resps, sp.minAlign, sp.trace⟩
     · intro hb
       obtain ⟨s1, r1, hg⟩ := a2 hb
       rw [hg]
       exact ⟨_, _, rfl⟩
+
+/-- `RawBump::make_allocated` -/
+theorem makeAllocated_ok (hc : CfgOK cfg) {s : State} (h : GeomInv cfg s) (hr : RespsOK cfg s) :
+    (∀ s' r, makeAllocated cfg s = .ok (s', r) → ReservePost cfg s s' ∧ (r = .ok () → ∃ j, s'.cur = .chunk j)) ∧
+    ((∀ size, Spec.calcSize cfg.up cfg.hdr cfg.minChunk = some size → HeadOK cfg s size) →
+      (∃ size, Spec.calcSize cfg.up cfg.hdr cfg.minChunk = some size) → ∃ s' r, makeAllocated cfg s = .ok (s', r)) := by
+  unfold makeAllocated
+  cases hcur : s.cur with
+  | claimed =>
+    refine ⟨?_, fun _ _ => ⟨_, _, rfl⟩⟩
+    intro s' r he; cases he
+    exact ⟨⟨h, hr, rfl, Trace.refl _⟩, fun hx => by cases hx⟩
+  | chunk i =>
+    refine ⟨?_, fun _ _ => ⟨_, _, rfl⟩⟩
+    intro s' r he; cases he
+    exact ⟨⟨h, hr, rfl, Trace.refl _⟩, fun _ => ⟨i, hcur⟩⟩
+  | unallocated =>
+    have hmm : Nat.max cfg.minChunk cfg.minChunk = cfg.minChunk := Nat.max_self _
+    simp only [calcSize_eq hc hc.minChunk, hmm, r_ok_bind]
+    cases hs : Spec.calcSize cfg.up cfg.hdr cfg.minChunk with
+    | none =>
+      refine ⟨?_, ?_⟩
+      · intro s' r he; cases he
+      · intro _ hex
+        obtain ⟨size, hx⟩ := hex
+        cases hx
+    | some size =>
+      obtain ⟨_, hsa, hsz, _, _⟩ := C12.calcSize_some hc.hdr hs
+      simp only
+      constructor
+      · intro s' r he
+        cases hn : newChunk cfg s size with
+        | error f => rw [hn] at he; cases he
+        | ok x =>
+          obtain ⟨s1, r1⟩ := x
+          have np := (newChunk_post hc h hr hsz hn).1
+          rw [hn] at he
+          cases r1 with
+          | error e =>
+            cases he
+            exact ⟨⟨np.inv, np.resps, np.minAlign, np.trace⟩, fun hx => by cases hx⟩
+          | ok i =>
+            cases he
+            exact ⟨⟨np.withCur, np.resps, np.minAlign, np.trace⟩, fun _ => ⟨i, rfl⟩⟩
+      · intro hb _
+        obtain ⟨s1, r1, hn⟩ := newChunk_noFault hc hr hsa (hb size rfl)
+        rw [hn]
+        cases r1 <;> exact ⟨_, _, rfl⟩
+
+/-- `RawBump::manually_drop`: every chunk is released -/
+theorem manuallyDrop_inv {s : State} (h : GeomInv cfg s) : GeomInv cfg (manuallyDrop cfg s) := by
+  unfold manuallyDrop
+  split
+  · refine ⟨?_, h.minAlign, ?_⟩
+    · intro i c hi; simp at hi
+    · intro i hi; cases hi
+  · exact ⟨h.chunks, h.minAlign, h.cur⟩
 
 end
 end Arena
